@@ -145,7 +145,7 @@ def campaign_gate(cx):
             for cc in callers_of(cx, c.fn):   # hup / poll
                 key = cx.site_key(cc, "call:" + fn_name(c.fn))
                 def no_unapplied(l):
-                    return l[0] == "is" and l[2] is False and l[1][0] == "call" and l[1][1].endswith("has_unapplied_conf_changes")
+                    return l[0] == "is" and l[2] is False and l[1][0] == "call" and l[1][1] == cx.sfx("Raft::has_unapplied_conf_changes")
                 def prevote_won(l):
                     return l[0] == "in" and is_f(l[1], STATE) and l[2] == frozenset(["PreCandidate"])
                 g = cx.pg(cc.fn)
@@ -172,7 +172,7 @@ def campaign_gate(cx):
         cx.check(len(downs) == 1, "fast-forward:stepdown", "the fast-forward contains one step-down")
         for c in downs:
             def found(l):
-                return l[0] == "is" and l[2] is True and l[1][0] == "call" and l[1][1].endswith("has_unapplied_conf_changes")
+                return l[0] == "is" and l[2] is True and l[1][0] == "call" and l[1][1] == cx.sfx("Raft::has_unapplied_conf_changes")
             require(cx, c, cx.site_key(c, "stepdown"), "the candidate steps down when the newly committed range holds a conf change", found, kill=False)
             st = [("in", l[1], frozenset(["Candidate", "PreCandidate"]), l[3]) for l in cx.guard_lits(c) if l[0] == "in" and is_f(l[1], STATE)][:1]
             ok, n_edges = g.after_edge_must_pass(lambda lits: any(found(l) for l in lits), lambda b, c=c: b == c.block, assume=st)
